@@ -2,9 +2,13 @@
 //   amv <family> <outdir>      env: VERIF_SEED, VERIF_TIER
 // writes <outdir>/<family>_NNN.v (model cases for coqc), <outdir>/<family>_index.json (case
 // descriptors) and <outdir>/<family>_report.json (counts, samples, direct failures).
+#![allow(dead_code)]
 mod alloc;
 mod util;
 mod fam_bloom;
+mod fam_hist;
+mod gen;
+mod model;
 
 #[global_allocator]
 static GLOBAL: alloc::Counting = alloc::Counting;
@@ -24,6 +28,7 @@ fn main() {
     let mut rng = util::Rng::new(seed ^ util::fnv(fam.as_bytes()));
     let rep = match fam {
         "bloom" => fam_bloom::run(&mut rng, &tier, out),
+        "hist" => fam_hist::run(&mut rng, &tier, out),
         _ => {
             eprintln!("unknown family {}", fam);
             std::process::exit(2);
